@@ -285,6 +285,7 @@ G_EVENTS = (
     + [("p", g, 2, "b", 150, None, None) for g in (1, 2)]
     + [("p", 1, 1, "c", 20, None, None)]
     + [("p", 1, 2, "b", -50, -20, -120)]  # actor b replaces its proposal by one whose own bounds are inverted
+    + [("p", 1, 2, "b", 40, None, None, -5.0)]  # ... by one that was created 5 s before it arrives (creation_time is an input)
     + [("t", 30.25), ("t", 31.0), ("s", 0), ("s", 1), ("s", 2)]
 )
 MAX_AGE_G = 60.75  # a maximum age with a fractional part: two 30.25 s steps stay below it, 30.25 s + 31 s do not
@@ -332,8 +333,9 @@ def e2_groups(args) -> Acc:
     def apply(st, ev):
         m, now, si = st
         if ev[0] == "p":
-            _, g, prio, src, pref, lo, hi = ev
-            m.calculate_target_power(frozenset({g}), gprop(g, src, prio, pref, lo, hi, now), sb(*G_SYS[si]))
+            _, g, prio, src, pref, lo, hi = ev[:7]
+            m.calculate_target_power(frozenset({g}), gprop(g, src, prio, pref, lo, hi, now + (ev[7] if len(ev) > 7 else 0.0)),
+                                     sb(*G_SYS[si]))
         elif ev[0] == "t":
             now += ev[1]
             m.drop_old_proposals(now)
@@ -344,7 +346,7 @@ def e2_groups(args) -> Acc:
         return (m, now, si)
 
     def group_hist(hist, g):
-        return tuple(("p", e[2], e[3], e[4], e[5], e[6]) if e[0] == "p" else e for e in hist
+        return tuple(("p", *e[2:]) if e[0] == "p" else e for e in hist
                      if (e[0] == "p" and e[1] == g) or e[0] == "t")
 
     def check(st, hist):
@@ -416,10 +418,11 @@ def replay_groups(hist):
     now, si = 0.0, 0
     for k, ev in enumerate(hist):
         if ev[0] == "p":
-            _, g, prio, src, pref, lo, hi = ev
+            _, g, prio, src, pref, lo, hi = ev[:7]
             pr = Proposal(source_id=src, preferred_power=None if pref is None else W(pref),
                           bounds=timeseries.Bounds(None if lo is None else W(lo), None if hi is None else W(hi)),
-                          component_ids=frozenset({g}), priority=prio, creation_time=now, set_operating_point=False)
+                          component_ids=frozenset({g}), priority=prio, creation_time=now + (ev[7] if len(ev) > 7 else 0.0),
+                          set_operating_point=False)
             m.calculate_target_power(frozenset({g}), pr, sb(*G_SYS[si]))
         elif ev[0] == "t":
             now += ev[1]
@@ -431,7 +434,7 @@ def replay_groups(hist):
     sysb = G_SYS[si]
     ev = hist[-1]
     for g in (1, 2):
-        gh = tuple(("p", e[2], e[3], e[4], e[5], e[6]) if e[0] == "p" else e for e in hist if (e[0] == "p" and e[1] == g) or e[0] == "t")
+        gh = tuple(("p", *e[2:]) if e[0] == "p" else e for e in hist if (e[0] == "p" and e[1] == g) or e[0] == "t")
         live, _ = ref.live_set(gh, MAX_AGE_G)
         exp = target_of(live, sysb) if live else None
         if _status_bounds(m, g, sysb) != _fresh_status_bounds(live, g, sysb):
@@ -492,7 +495,7 @@ def run(tier: str, seed: int, workers: int):
     acc = pmap_acc(_dispatch, shards, workers)
     meta = {
         "rule": "E2c (groups): every sequence to depth 5 over {actor a / b proposes for component group 1 or 2, actor c for "
-        "group 1, actor b replaces its proposal by one with inverted bounds, +30.25 s, +31 s (maximum proposal age 60.75 s), a system-bounds "
+        "group 1, actor b replaces its proposal by one with inverted bounds or by one created 5 s before it arrives, +30.25 s, +31 s (maximum proposal age 60.75 s), a system-bounds "
         "update to one of 3 shapes (two differ only in the exclusion zone) after which every group is re-evaluated without a proposal} on ONE "
         "Matryoshka, without state merging: after every proposal and bounds update the stored target, and after every event the recomputed "
         "target and the bounds reported to a priority-1 actor (get_status), of both groups equal what a fresh instance computes from that "
